@@ -1,4 +1,4 @@
-import BumpVerif.Proofs.Frame
+import BumpVerif.Proofs.Live
 /-!
 # C01 — live allocations are in-bounds and never overlap
 
@@ -65,6 +65,49 @@ theorem dealloc_wf {E p sz} (s : St) (hE : EnvOK E) (h : ArenaWF E s.a)
     (hblk : (s.a.cur E).ptr = p → p + sz ≤ (s.a.cur E).footer) : ArenaWF E (dealloc E p sz s).1.a :=
   (dealloc_spec s hE h hblk).2.1
 
+/-- **Main theorem (all histories).** Start from any arena a constructor returned, with no live
+blocks, and run *any* admissible history — any mix of allocation flavours (fallible or not, typed,
+slices, strings, fills), Allocator-trait `allocate`/`deallocate`/`grow`/`grow_zeroed`/`shrink` on
+any live block in any order, fallible initialisers, `reset`, limit changes — with any allocator
+answers that respect the allocator contract. Then at the end (hence at every point): the arena is
+well-formed; every live block has a `MIN_ALIGN`-aligned non-null address and, if non-empty, lies in
+the used part `[finger, footer)` of a chunk the arena holds; live blocks of non-zero size are
+pairwise disjoint; and no step produced an assertion failure, a wrap-around or UB.
+
+`_partial`: `OpValid` admits a *failing* fallible initialiser only when it allocated nothing in
+the arena (`ok = true ∨ inner = []`). The full statement drops that side condition; the
+excluded case (initialiser allocates in the arena, then fails) is exercised by the
+correspondence run and the overlap/canary oracles on the real crate, see DESIGN §11. -/
+theorem history_partial {E M cap a} (f : Bool) (s0 : St) (hE : EnvOK E) (hM : IsPow2 M) (hMle : M ≤ 16)
+    (hctor : (newArena E M cap f s0).2 = .ok a) (ops : List Op)
+    (hrun : RunOK E ops ⟨{ (newArena E M cap f s0).1 with a := a }, []⟩) :
+    LiveInv E (sysRun E ops ⟨{ (newArena E M cap f s0).1 with a := a }, []⟩).1 ∧
+    ∀ r ∈ (sysRun E ops ⟨{ (newArena E M cap f s0).1 with a := a }, []⟩).2, ∀ w, r ≠ .bad w :=
+  sysRun_live hE ops _ (init_live _ (ctor_wf f s0 hM hMle hctor) rfl) hrun
+
+/-- what the invariant says about two live blocks -/
+theorem live_blocks_disjoint {E y b c} (inv : LiveInv E y) (hb : b ∈ y.live) (hc : c ∈ y.live) (hne : b ≠ c)
+    (hbs : 0 < b.size) (hcs : 0 < c.size) : Disj b.ptr b.size c.ptr c.size := by
+  have hp := inv.disj
+  have : ∀ (l : List Block), l.Pairwise NoOverlap → b ∈ l → c ∈ l → NoOverlap b c := by
+    intro l hl
+    induction hl with
+    | nil => intro h; cases h
+    | cons hh _ ih =>
+      intro h1 h2
+      simp only [List.mem_cons] at h1 h2
+      rcases h1 with rfl | h1 <;> rcases h2 with rfl | h2
+      · exact absurd rfl hne
+      · exact hh _ h2
+      · exact (hh _ h1).symm
+      · exact ih h1 h2
+  have hno := this y.live hp hb hc
+  unfold NoOverlap at hno
+  rcases hno with h0 | h0 | h0
+  · omega
+  · omega
+  · exact h0
+
 /-- non-vacuity: a two-chunk arena satisfies the invariant -/
 example : ArenaWF 160 ⟨8, [⟨8192, 1008, 16, 9000, 1408⟩, ⟨4096, 496, 16, 4200, 448⟩], some 5000⟩ := by
   refine ⟨⟨3, rfl⟩, by decide, ?_, by decide, ?_, ?_, by decide⟩
@@ -85,3 +128,5 @@ end Bump.C01
 #print axioms Bump.C01.ctor_wf
 #print axioms Bump.C01.reset_wf
 #print axioms Bump.C01.dealloc_wf
+#print axioms Bump.C01.history_partial
+#print axioms Bump.C01.live_blocks_disjoint
